@@ -211,7 +211,39 @@ def spec_json(obj, variant: Optional[str] = None) -> Any:
 
 
 VARIANTS = ["plain", "explicit-kind", "defaults-omitted", "long-display-name", "language-tags", "abstract-key-type", "abstract-list-type",
-            "unsigned-int"]
+            "unsigned-int", "lexical-forms"]
+
+# SPEC (XML Schema part 2): valid lexical forms that are not the canonical ones the SDK's own writer emits, with the value
+# they denote written down as the canonical token of py/vf/canon.py (type name of the Python value, Python-native rendering).
+LEXICAL_FORMS = [
+    ("xs:decimal", ".5", ["v", "Decimal", "0.5"]), ("xs:decimal", "3.", ["v", "Decimal", "3"]), ("xs:decimal", "+1.50", ["v", "Decimal", "1.5"]),
+    ("xs:decimal", "-.25", ["v", "Decimal", "-0.25"]), ("xs:decimal", "0012.0", ["v", "Decimal", "12"]),
+    ("xs:integer", "+5", ["v", "int", "5"]), ("xs:integer", "007", ["v", "int", "7"]), ("xs:integer", "-0", ["v", "int", "0"]),
+    ("xs:int", "+2147483647", ["v", "Int", "2147483647"]), ("xs:long", "-009", ["v", "Long", "-9"]), ("xs:short", "+1", ["v", "Short", "1"]),
+    ("xs:byte", "-128", ["v", "Byte", "-128"]), ("xs:unsignedByte", "255", ["v", "UnsignedByte", "255"]),
+    ("xs:unsignedShort", "065535", ["v", "UnsignedShort", "65535"]), ("xs:unsignedLong", "18446744073709551615", ["v", "UnsignedLong", "18446744073709551615"]),
+    ("xs:nonNegativeInteger", "+0", ["v", "NonNegativeInteger", "0"]), ("xs:positiveInteger", "+1", ["v", "PositiveInteger", "1"]),
+    ("xs:nonPositiveInteger", "-0", ["v", "NonPositiveInteger", "0"]), ("xs:negativeInteger", "-01", ["v", "NegativeInteger", "-1"]),
+    ("xs:boolean", "1", ["v", "bool", "True"]), ("xs:boolean", "0", ["v", "bool", "False"]),
+    ("xs:double", "1E3", ["v", "float", "1000.0"]), ("xs:double", "INF", ["v", "float", "inf"]), ("xs:double", "-INF", ["v", "float", "-inf"]),
+    ("xs:double", "NaN", ["v", "float", "nan"]), ("xs:double", ".5", ["v", "float", "0.5"]), ("xs:double", "+1.5e-3", ["v", "float", "0.0015"]),
+    ("xs:double", "5.", ["v", "float", "5.0"]), ("xs:float", "-1E2", ["v", "Float", "-100.0"]), ("xs:float", "INF", ["v", "Float", "inf"]),
+    ("xs:duration", "P1Y", ["v", "relativedelta", [1, 0, 0, 0, 0, 0, 0]]), ("xs:duration", "PT0.5S", ["v", "relativedelta", [0, 0, 0, 0, 0, 0, 500000]]),
+    ("xs:duration", "-P1D", ["v", "relativedelta", [0, 0, -1, 0, 0, 0, 0]]),
+    ("xs:duration", "P1Y2M3DT4H5M6.7S", ["v", "relativedelta", [1, 2, 3, 4, 5, 6, 700000]]),
+    ("xs:dateTime", "2020-01-01T00:00:00Z", ["v", "datetime", "2020-01-01T00:00:00", 0.0]),
+    ("xs:dateTime", "2020-01-01T12:30:00.5+01:00", ["v", "datetime", "2020-01-01T12:30:00.500000", 3600.0]),
+    ("xs:dateTime", "1999-12-31T23:59:59.999999-14:00", ["v", "datetime", "1999-12-31T23:59:59.999999", -50400.0]),
+    ("xs:dateTime", "2020-02-29T01:02:03", ["v", "datetime", "2020-02-29T01:02:03", None]),
+    ("xs:date", "2020-01-01Z", ["v", "Date", "2020-01-01", 0.0]), ("xs:date", "2020-01-01+05:30", ["v", "Date", "2020-01-01", 19800.0]),
+    ("xs:time", "12:00:00.25Z", ["v", "time", "12:00:00.250000", 0.0]), ("xs:time", "23:59:59", ["v", "time", "23:59:59", None]),
+    ("xs:hexBinary", "0aFF", ["v", "HexBinary", "0aff"]), ("xs:hexBinary", "", ["v", "HexBinary", ""]),
+    ("xs:base64Binary", "YWJj", ["v", "Base64Binary", "616263"]), ("xs:base64Binary", "YQ==", ["v", "Base64Binary", "61"]),
+    ("xs:gYear", "2020Z", ["v", "GYear", {"year": 2020}, 0.0]), ("xs:gMonth", "--05", ["v", "GMonth", {"month": 5}, None]),
+    ("xs:gDay", "---15+02:00", ["v", "GDay", {"day": 15}, 7200.0]), ("xs:gYearMonth", "2020-05", ["v", "GYearMonth", {"year": 2020, "month": 5}, None]),
+    ("xs:gMonthDay", "--05-15Z", ["v", "GMonthDay", {"month": 5, "day": 15}, 0.0]),
+    ("xs:anyURI", "urn:a b", ["v", "AnyURI", "urn:a b"]), ("xs:string", " x ", ["v", "str", " x "]),
+]
 
 
 def apply_variant(doc: dict, expected: dict, variant: str, rng: random.Random) -> Optional[Tuple[dict, dict]]:
@@ -248,6 +280,19 @@ def apply_variant(doc: dict, expected: dict, variant: str, rng: random.Random) -
                "category": None, "description": None, "qualifier": ["set", []], "semantic_id": None,
                "supplemental_semantic_id": ["list", []], "extension": ["set", []], "embedded_data_specifications": ["list", []]}
         expected["submodel_element"] = ["set", sorted(expected["submodel_element"][1] + [sml], key=lambda x: json.dumps(x, sort_keys=True, default=str))]
+        return doc, expected
+    if variant == "lexical-forms" and doc.get("modelType") == "Submodel":
+        from vf import canon as _canon
+        added = []
+        for j, (xs, lit, token) in enumerate(rng.sample(LEXICAL_FORMS, 6)):
+            ids = f"lex{j}"
+            doc.setdefault("submodelElements", []).append({"modelType": "Property", "idShort": ids, "valueType": xs, "value": lit})
+            tname = token[1]              # canon names a type by the Python class of its values
+            added.append({"_c": "Property", "value_type": ["t", tname], "value": token, "value_id": None,
+                          "id_short": ["s", ids], "display_name": None, "category": None, "description": None, "qualifier": ["set", []],
+                          "semantic_id": None, "supplemental_semantic_id": ["list", []], "extension": ["set", []],
+                          "embedded_data_specifications": ["list", []]})
+        expected["submodel_element"] = ["set", sorted(expected["submodel_element"][1] + added, key=lambda x: json.dumps(x, sort_keys=True, default=str))]
         return doc, expected
     if variant == "unsigned-int" and doc.get("modelType") == "Submodel":
         doc.setdefault("submodelElements", []).append({"modelType": "Property", "idShort": "uintProp", "valueType": "xs:unsignedInt", "value": "4294967295"})
